@@ -399,6 +399,7 @@ def main():
     a = ap.parse_args()
     prop = a.prop
     tier = a.tier if a.tier in ('quick', 'thorough') else 'quick'
+    os.environ['VERIF_TIER'] = tier      # the replay program widens its sweeps in the thorough tier
     seed = int(os.environ.get('VERIF_SEED', '0') or 0)
     t0 = time.time()
     all_units = unit_templates()
